@@ -151,6 +151,10 @@ Section PlanOk.
       assert (HflB : flatten sc frags vars g0 (ef_T phi) (ef_sel phi) = FlatOk (flat_of' (ef_T phi) (ef_sel phi))).
       { unfold flat_okb in HokB. unfold flat_of. destruct (flatten sc frags vars g0 (ef_T phi) (ef_sel phi)); [reflexivity|discriminate]. }
       pose proof (plan_ks_le ds d phi Hin Efd) as Hks.
+      assert (Hb1 : (two_step_fuel (ef_ks phi) g0 fM <= f1)%nat)
+        by (clear -Hks Hf1; unfold two_step_fuel, plan_fuel in *; lia).
+      assert (Hb2 : (two_step_fuel (ef_ks phi) g0 fM + g0 <= f2)%nat)
+        by (clear -Hks Hf2; unfold two_step_fuel, plan_fuel in *; lia).
       unfold root_sel in Hs1, Hreq1 |- *. unfold client_sel in Hn |- *. rewrite Efd in Hs1, Hreq1, Hn |- *.
       apply (federated_two_step_wf_main U sc frags vars sc0 (ef_sub phi) vdsM supM root2 Q eQ
                (df_alias d) (df_name d) (df_args d) [] [] (df_nn d) (ef_T phi) td fd (ef_T phi) (ef_ks phi)
@@ -164,13 +168,11 @@ Section PlanOk.
         cbn [negb orb] in Hents. apply andb_true_iff in Hents. destruct Hents as [Hk1 Hk2].
         split; [exact HTe|]. split; [|split; assumption].
         apply (key_consistent_find decls); [exact Hkc|exact HinU|]. rewrite HTe. apply key_declared_In. exact Hkd.
-      + unfold two_step_fuel, plan_fuel in *. lia.
-      + unfold two_step_fuel, plan_fuel in *. lia.
     - (* a field resolved entirely by the root subgraph *)
       intros. unfold root_sel, client_sel in *. rewrite Efd in *.
       rewrite (exec_sels_sub_mono sc0 U frags vars f1 Q eQ _ [] Hfr Hs1).
       rewrite (req_ok_sound_same_vars sc sc0 U frags vars kq Q eQ None _ [] Hwf0 Hu0 Hreq1 HeU HeT f1).
-      apply exec_sels_fuel_mono; [unfold plan_fuel in *; lia|exact Hn].
+      apply exec_sels_fuel_mono; [clear -Hf1; unfold plan_fuel in *; lia|exact Hn].
   Qed.
 
   (* (4) plan soundness, entity fetches at depth 1 *)
@@ -189,6 +191,6 @@ Section PlanOk.
     - apply Forall_forall. intros d Hin. apply (link_of ds d Hok Hin Hf1 Hf2).
     - pose proof Hok as Hok'. unfold plan_ok_b in Hok'.
       repeat (apply andb_true_iff in Hok'; destruct Hok' as [Hok' ?]). assumption.
-    - unfold plan_fuel in Hf1. lia.
+    - clear -Hf1. unfold plan_fuel in Hf1. lia.
   Qed.
 End PlanOk.
